@@ -179,6 +179,39 @@ def norm(node):
         return ast.dump(node)
 
 
+def function_locals(fnode):
+    """Names bound inside the function (assignment, for/with/except targets, comprehension variables) that are neither parameters
+    nor declared global/nonlocal."""
+    a = fnode.args
+    params = {x.arg for x in a.posonlyargs + a.args + a.kwonlyargs} | ({a.vararg.arg} if a.vararg else set()) | ({a.kwarg.arg} if a.kwarg else set())
+    glob, bound = set(), set()
+    for n in ast.walk(fnode):
+        if isinstance(n, (ast.Global, ast.Nonlocal)):
+            glob |= set(n.names)
+        elif isinstance(n, ast.Name) and isinstance(n.ctx, (ast.Store, ast.Del)):
+            bound.add(n.id)
+        elif isinstance(n, ast.ExceptHandler) and n.name:
+            bound.add(n.name)
+        elif isinstance(n, ast.arg) and n is not None:
+            pass
+    lam = {x.arg for n in ast.walk(fnode) if isinstance(n, ast.Lambda) for x in n.args.args}
+    return (bound | lam) - params - glob
+
+
+def canon(text, local_names):
+    """`text` with the function's local names replaced by L1, L2, ... in order of first appearance: the same for every consistent
+    renaming of locals.  Used for keys of frozen tables (triage entries), never for messages."""
+    import re
+    if not local_names:
+        return text
+    pat = re.compile(r"(?<![\w.])(" + "|".join(sorted((re.escape(n) for n in local_names), key=len, reverse=True)) + r")(?!\w)")
+    order = {}
+
+    def sub(m):
+        return order.setdefault(m.group(1), f"L{len(order) + 1}")
+    return pat.sub(sub, text)
+
+
 def short(node, n=90):
     s = norm(node).replace("\n", " ")
     return s if len(s) <= n else s[:n - 3] + "..."
